@@ -312,13 +312,27 @@ func Seq() uint64 {
 
 // Logf appends an event to the run log. Events must be deterministic functions of the
 // execution (no addresses, no real time).
+// FreezeTrace stops the trace hash: events logged afterwards (teardown) are kept in the tail
+// but do not count towards the determinism fingerprint.
+func FreezeTrace() { logMu.Lock(); frozen = true; logMu.Unlock() }
+
+var frozen bool
+
+// DebugDraws appends the scheduler draw counter to every log line (debugging aid).
+var DebugDraws bool
+
 func Logf(format string, a ...any) {
 	d := Now()
 	line := fmt.Sprintf("%12.6f ", d.Seconds()) + fmt.Sprintf(format, a...)
+	if DebugDraws {
+		line += fmt.Sprintf(" [draws=%d]", simDraws())
+	}
 	logMu.Lock()
 	logTotal++
-	logHash.Write([]byte(line))
-	logHash.Write([]byte{'\n'})
+	if !frozen {
+		logHash.Write([]byte(line))
+		logHash.Write([]byte{'\n'})
+	}
 	if len(logLines) >= 2*logKeep {
 		logLines = append(logLines[:0], logLines[logKeep:]...)
 	}
